@@ -406,6 +406,9 @@ def finish(prop, tier, seed, plan, results, known_hits, t0, exit_code, notes, wd
                                                        if not i['ok'] and i['defined']})[:40],
                           'build_s': round(k.build_s, 1)})
     meta = plan.get('meta', {})
+    # replaced callees that no job of this run enforces: their contracts are ASSUMED in this tier (listed, never hidden)
+    enforced = {(r.job.kernel, r.target_dem) for r in results if r.target_dem}
+    assumed_here = sorted({'%s [%s]' % (d[:220], r.job.kernel) for r in results for d in (r.replaced or []) if (r.job.kernel, d) not in enforced})
     ev = {
         'property_id': prop,
         'tier': tier,
@@ -431,7 +434,7 @@ def finish(prop, tier, seed, plan, results, known_hits, t0, exit_code, notes, wd
             'kernels': kinfo,
             'instantiations': meta.get('instantiations'),
             'not_applicable_parts': meta.get('not_applicable_parts', []),
-            'assumed_contracts': meta.get('assumed_contracts', []),
+            'assumed_contracts': meta.get('assumed_contracts', []) + ['replaced but not enforced in this tier: ' + a for a in assumed_here],
             'known_findings': [{'id': fid, 'what': f['what'], 'jobs': names} for fid, (f, names) in known_hits.items()],
             'samples': samples or [{'note': 'no obligations were generated'}],
             'explanation': meta.get('explanation', ''),
